@@ -3,6 +3,7 @@
 package funcs
 
 import (
+	dtpb "github.com/google/fhir/go/proto/google/fhir/proto/r4/core/datatypes_go_proto"
 	"errors"
 
 	"github.com/verily-src/fhirpath-go/fhirpath/internal/expr"
@@ -120,3 +121,37 @@ func VerifHarness_C17_CustomFunctions() {
 // C17: each invocation of a custom function receives the current input collection and its own evaluated arguments,
 // also when invocations of the same function are nested or follow one another (see verifCustomFunctionIsReentrant).
 func VerifHarness_C17_CustomFunctionInvocationsAreIndependent() { verifCustomFunctionIsReentrant() }
+
+// C17: a custom function is invoked with its evaluated arguments - the very items the argument expressions yield: a
+// FHIR element arrives as that element (same node: its id and extensions are the caller's to read), whether the
+// parameter is declared as the element type or as an open interface, and a System value as that value.
+func VerifHarness_C17_ArgumentsArriveAsEvaluated() {
+	t := Clone()
+	el := &dtpb.String{Value: verifrt.NondetString("text", 1), Id: &dtpb.String{Value: "e1"}}
+	var seen any
+	var fn any
+	switch verifrt.Choose("param", 3) {
+	case 0:
+		fn = func(in system.Collection, s *dtpb.String) (system.Collection, error) { seen = s; return in, nil }
+	case 1:
+		fn = func(in system.Collection, a any) (system.Collection, error) { seen = a; return in, nil }
+	default:
+		fn = func(in system.Collection, a system.Any) (system.Collection, error) { seen = a; return in, nil }
+	}
+	verifrt.Assert(t.Register("probe", fn) == nil, "well-formed-function-is-registered")
+	var arg any = el
+	if verifrt.NondetBool("systemArgument") {
+		arg = system.String(el.Value)
+	}
+	_, err := t["probe"].Func(verifCtx(), system.Collection{}, verifConst(system.Collection{arg}))
+	_, isElement := arg.(*dtpb.String)
+	if err == nil {
+		verifrt.Assert(seen == arg, "the-callee-receives-the-evaluated-argument-itself")
+	} else {
+		// only a declared type that the item does not have may refuse it: *dtpb.String refuses a System String,
+		// system.Any refuses an element
+		verifrt.Assert(seen == nil, "a-refused-call-does-not-reach-the-callee")
+		_ = isElement
+	}
+	verifrt.Reach("end")
+}
